@@ -34,6 +34,6 @@ PROP = {
     "trusted_base": _C03["trusted_base"],
     "assumptions": [
         "identifiers contain no '/'",
-        "native token: modelled incl. x/bank balances of the native stakers and of the escrow module account (C01_escrow); NST deposits as such are not modelled; UpdateNSTBalance is modelled, correspondence-checked and monitored but outside the theorems (wf_op)",
+        "native token: modelled incl. x/bank balances of the native stakers and of the escrow module account (C01_escrow); NST deposits as such are not modelled; UpdateNSTBalance is modelled, correspondence-checked, monitored and inside the theorem fragment",
     ],
 }
